@@ -354,7 +354,7 @@ func judgeBits(c BitCase) *eng.Fail {
 
 func judgeConv(c ConvCase) *eng.Fail {
 	// (Go integers of every built-in type in the data: numbers for every builtin and operator alike)
-	o, err := evalWith("["+c.Expr+"]", map[string]interface{}{"i16": int16(7), "u8": uint8(200), "u64": uint64(1) << 63, "i8": int8(-3), "u": uint(12), "u16": uint16(65535), "u32": uint32(1) << 31})
+	o, err := evalWith("["+c.Expr+"]", map[string]interface{}{"i16": int16(7), "u8": uint8(200), "u64": uint64(1) << 63, "i8": int8(-3), "u": uint(12), "u16": uint16(65535), "u32": uint32(1) << 31, "up": uintptr(9)})
 	if err != nil || o.panicked || o.err != nil {
 		return eng.F("C18/eval", "%s: %v %v %s", c.Expr, err, o.err, o.panicMsg)
 	}
@@ -596,7 +596,7 @@ func runC18(w *eng.W) {
 	}
 	convs = append(convs, ConvCase{"toInt(i16)", "7"}, ConvCase{"toFloat(i16)", "7"}, ConvCase{"finite(i16)", "7"}, ConvCase{"i16 & 3", "3"}, ConvCase{"u8 | 1", "201"}, ConvCase{"~i16", "-8"}, ConvCase{"abs(i8)", "3"},
 		ConvCase{"toInt(u64)", "9223372036854775808"}, ConvCase{"max(i8, u8)", "200"}, ConvCase{"i16 + u8", "207"}, ConvCase{"-i8", "3"}, ConvCase{"floor(u / 5)", "2"}, ConvCase{"toFloat(u16) + 1", "65536"}, ConvCase{"u32 ^ u32", "0"},
-		ConvCase{"round(u8 / 3)", "67"}, ConvCase{"min(u16, u32, i8)", "-3"}, ConvCase{"sqrt(u16 + 1)", "256"}, ConvCase{"toInt(toString(u8))", "200"})
+		ConvCase{"round(u8 / 3)", "67"}, ConvCase{"min(u16, u32, i8)", "-3"}, ConvCase{"sqrt(u16 + 1)", "256"}, ConvCase{"toInt(toString(u8))", "200"}, ConvCase{"toInt(up) + (up & 1) + up % 4", "11"}, ConvCase{"up == 9 ? up * 2 : 0", "18"})
 	for k := -15; k <= 15; k++ {
 		convs = append(convs, ConvCase{fmt.Sprintf("log(1e%d)", k), strconv.Itoa(k)})
 	}
